@@ -547,7 +547,7 @@ def write_evidence(prop, run, tier, seed):
         "trusted_base": ["z3 %s" % _z3_version(), "vsx interpreter (/verif/vsx)", "CPython %s for native replays" % REPO_PY],
         "programs": int(getattr(prop, "programs", lambda tier: 0)(tier)) if hasattr(prop, "programs") else 0,
         "disagreements_checked": int(tot.get("discharged", 0)),
-        "exhaustive": False,
+        "exhaustive": bool(getattr(prop, "EXHAUSTIVE", False)),
         "explanation": getattr(prop, "EXPLANATION", ""),
         "bounds": prop.BOUNDS.get(tier, ""),
         "outside_bounds": getattr(prop, "OUTSIDE", ""),
